@@ -127,6 +127,7 @@ public:
       auto ptr = impl().get_raw_value();                                       \
       detail::dynamic_check(ptr != nullptr,                                    \
                             "Pointer arithmetic on a null pointer");           \
+      detail::check_pointer_offset(raw_rhs, sizeof(*impl()));                  \
       /* increment the target by size of the data structure */                 \
       auto target =                                                            \
         reinterpret_cast<uintptr_t>(ptr) opSymbol raw_rhs * sizeof(*impl());   \
@@ -396,6 +397,7 @@ public:
       detail::dynamic_check(ptr != nullptr,
                             "Pointer arithmetic on a null pointer");
 
+      detail::check_pointer_offset(raw_rhs, sizeof(*this->impl()));
       // increment the target by size of the data structure
       auto target =
         reinterpret_cast<uintptr_t>(ptr) + raw_rhs * sizeof(*this->impl());
